@@ -383,6 +383,19 @@ func PerNodeArgs(spec CallSpec, s int) (tag uint32, pay int, ok bool) {
 	return tag, pay, true
 }
 
+// perNodeDelay returns the time the per-node function spends for server s
+// ("delay:<us>" in the table): the call has drawn its message id by then but
+// has not handed over its requests yet.
+func perNodeDelay(spec CallSpec, s int) time.Duration {
+	for _, part := range strings.Split(spec.PerNode[s], ",") {
+		var k int
+		if n, _ := fmt.Sscanf(part, "delay:%d", &k); n == 1 {
+			return time.Duration(k) * time.Microsecond
+		}
+	}
+	return 0
+}
+
 // PerNodePayload is the node-specific payload the per-node function builds.
 func PerNodePayload(token uint64, server, size int) []byte {
 	return PayloadFor(1000+server, token, size)
@@ -393,6 +406,9 @@ func (call *Call) perNodeFn() func(*puppet.Req, uint32) *puppet.Req {
 		s := call.cl.ServerOf(id)
 		tag, ok := perNodeTag(call.Spec, s)
 		call.cl.Cl.Log.Add(Event{Kind: "pernode", Call: call.Idx, Token: call.Token, Server: s, Tag: tag, ReqOK: proto.Equal(r, call.ReqCp), Note: fmt.Sprint(ok)})
+		if d := perNodeDelay(call.Spec, s); d > 0 {
+			time.Sleep(d)
+		}
 		if !ok {
 			return nil
 		}
